@@ -102,15 +102,23 @@ fn get_delta_header_size(
     length: usize,
 ) -> Result<usize, &'static str> {
     let mut size: usize = 0;
-    let mut i: usize = 0;
+    let mut shift: u32 = 0;
     loop {
         if *index >= length {
             return Err("delta truncated in size header");
         }
         let cmd = delta[*index];
         *index += 1;
-        size |= ((cmd & !0x80) as usize) << i;
-        i += 7;
+        let bits = (cmd & 0x7f) as usize;
+        if bits != 0 {
+            // A size that does not fit in usize can never match a real buffer;
+            // refuse it instead of overflowing the shift or dropping bits.
+            if shift >= usize::BITS || (bits << shift) >> shift != bits {
+                return Err("delta size header too large");
+            }
+            size |= bits << shift;
+        }
+        shift = shift.saturating_add(7);
         if cmd & 0x80 == 0 {
             return Ok(size);
         }
